@@ -184,9 +184,14 @@ def c18(tier):
     t0 = time.time()
     cfgs = vec.GROWTH_QUICK + (vec.GROWTH_THOROUGH if tier == "thorough" else [])
     cov, viols, inc = sets.run_engine("C18", tier, cfgs, 26, 26, extra_args=["--deep"] if tier == "thorough" else [], crash_owners=("C18",))
+    # capacities of the order of the size_type maximum (billions of one-byte elements in a lazily committed mapping)
+    hcfgs = sets.GROWTH_HUGE + (sets.GROWTH_HUGE_THOROUGH if tier == "thorough" else [])
+    c2, v2, i2 = sets.run_engine("C18", tier, hcfgs, 52, 52, crash_owners=("C18",), min_chunk=3)
+    cov, viols, inc = sets.merge_cov(cov, c2), viols + v2, inc + i2
     cov["rule"] = ("append sweeps of n one-element appends (n<=3000 quick, 100000 thorough, clamped by the size_type) from 5 start states x 5 append methods per "
                    "configuration, with allocator-call and relocation counters judged at every step (2*ceil(log2 n)+4 calls, each growth step >= ceil(1.5*old) "
-                   "unless clamped, 4n+8 relocations), plus a reserve/shrink_to_fit grid; distinct cell = (configuration, start state, method) or (operation, state class)")
+                   "unless clamped, 4n+8 relocations), plus a reserve/shrink_to_fit grid, plus append sweeps on full vectors of 0.7e9 .. 4.29e9 one-byte elements "
+                   "(32-bit unsigned / signed and 64-bit size types; the elements live in a lazily committed mapping) around the points where 3c and 1.5c leave 32 bits; distinct cell = (configuration, start state, method) or (operation, state class)")
     return core.finish("C18", tier, "exploration", cov, viols, inc, t0, ASSUME_SAN, min_evals=1000)
 
 
@@ -361,7 +366,7 @@ def c20_check(tier):
 
 def all_quick_specs():
     cfgs = (list(vec.QUICK) + sets.FS_QUICK + sets.SS_SPACE_QUICK + sets.SS_HIST_QUICK + sets.HG_QUICK + sets.COST_QUICK + vec.GROWTH_QUICK +
-            vec.ALIAS_QUICK + vec.LIMITS_QUICK + vec.FAULT_QUICK + sets.SETFAULT_QUICK + vec.SWAP2_QUICK + sets.ALGO_QUICK + sets.REALLOC_DIRECT + sets.NESTED_QUICK)
+            vec.ALIAS_QUICK + vec.LIMITS_QUICK + vec.FAULT_QUICK + sets.SETFAULT_QUICK + vec.SWAP2_QUICK + sets.ALGO_QUICK + sets.REALLOC_DIRECT + sets.NESTED_QUICK + sets.GROWTH_HUGE)
     return [c.spec() for c in cfgs]
 
 
@@ -377,7 +382,7 @@ def setup():
 
 def all_thorough_specs():
     cfgs = (vec.THOROUGH_EXTRA + sets.FS_THOROUGH + sets.SS_SPACE_THOROUGH + sets.SS_HIST_THOROUGH + sets.HG_THOROUGH + sets.COST_THOROUGH + vec.GROWTH_THOROUGH +
-            vec.ALIAS_THOROUGH + vec.LIMITS_THOROUGH + vec.FAULT_THOROUGH + sets.SETFAULT_THOROUGH + vec.SWAP2_THOROUGH + sets.ALGO_THOROUGH + sets.NESTED_THOROUGH)
+            vec.ALIAS_THOROUGH + vec.LIMITS_THOROUGH + vec.FAULT_THOROUGH + sets.SETFAULT_THOROUGH + vec.SWAP2_THOROUGH + sets.ALGO_THOROUGH + sets.NESTED_THOROUGH + sets.GROWTH_HUGE_THOROUGH)
     return [c.spec() for c in cfgs] + [c16.spec(b) for b in c16.matrix("thorough")] + [c20.spec("clang++-14")] + [fuzz.spec_of(c) for c in vec.FUZZ_CFGS]
 
 
